@@ -20,6 +20,7 @@ RULE = (
     "(mutate B, observe A). Oracle: snapshot(B) and B's saved bytes are identical before and after every step; an object of A's type (and an "
     "unrelated Amplifier) constructed after the mutations equals, in state and saved bytes, one constructed at process start before any case was generated. non-trivial = the mutation list contains an in-place element "
     "mutation of a list-valued payload"
+    " Also (added while the seeded-change rounds of DESIGN section 9 ran): Also: B = copy.deepcopy(A), a copies shard per payload type (both directions), a clone of a MetaModule's embedded project edited on its own, and bystander objects (legacy Sampler, short / surplus-CVAL files, fixtures) that stay alive during the case."
 )
 ASSUMPTIONS = [
     "B is independently obtained: never an operand of A's link operations, never inside A (designed couplings are C07/C15/C20's subject)",
